@@ -141,6 +141,10 @@ def enc_res(results) -> str:
 
 
 # ------------------------------------------------------------------ real code: stepper
+class Abort(Exception):
+    """interrupt_exception used where a KeyboardInterrupt would tear down the harness' own loop"""
+
+
 class _Run:
     """result of one real execution (shared by impl_lines and oracle)"""
     def __init__(self):
@@ -170,7 +174,7 @@ async def _step_async(case) -> _Run:
     loop = asyncio.get_running_loop()
     k = case["k"]
     with create_pipe_input() as inp:
-        session = PromptSession(input=inp, output=DummyOutput())
+        session = PromptSession(input=inp, output=DummyOutput(), interrupt_exception=Abort)
         app = session.app
         fd = inp.fileno()
         limit = [1024]
@@ -246,7 +250,7 @@ async def _step_async(case) -> _Run:
             try:
                 r = await asyncio.wait_for(task, WATCHDOG_S)
                 run.results.append((-1, r))
-            except KeyboardInterrupt:
+            except Abort:
                 run.results.append((-2, session.default_buffer.text))
             except asyncio.TimeoutError:
                 run.results.append((-9, "TIMEOUT"))
@@ -387,7 +391,7 @@ async def _e2e_async(case) -> _Run:
     chunks = _chunks_of(case)
     delays = case.get("delays") or [0]
     with create_pipe_input() as inp:
-        session = PromptSession(input=inp, output=DummyOutput())
+        session = PromptSession(input=inp, output=DummyOutput(), interrupt_exception=Abort)
         if case.get("tt") is not None:
             session.app.ttimeoutlen = case["tt"]
 
@@ -401,7 +405,7 @@ async def _e2e_async(case) -> _Run:
             try:
                 r = await asyncio.wait_for(session.prompt_async(), WATCHDOG_S)
                 run.results.append((-1, r))
-            except KeyboardInterrupt:
+            except Abort:
                 run.results.append((-2, session.default_buffer.text))
             except asyncio.TimeoutError:
                 run.results.append((-9, "TIMEOUT"))
@@ -448,7 +452,7 @@ def _new_loop_run(coro):
 # ------------------------------------------------------------------ protocol
 def model_lines(case):
     if case["kind"] == "step":
-        out = ["init"]
+        out = [f"init {case['k']}"]
         for ev in case["events"]:
             if ev[0] == "W":
                 out.append("W " + enc_keys(tok_code(t) for t in ev[1]))
@@ -644,14 +648,10 @@ def pattern_events(toks, sizes, pat):
         for c in chunks:
             ev += [["W", c], ["R", 100000]]
     elif pat == "stale":
+        # reads between two prompts (through the reader callback of the finished application)
         ev.append(["S"])
         for c in chunks:
-            ev += [["W", c], ["R", 100000], ["F"], ["W", []], ["R", 100000], ["S"]]
-        # stale reads between prompts: write first, finish, read with the old callback
-        ev2 = [["S"]]
-        for c in chunks:
-            ev2 += [["W", c], ["F"], ["R", 100000], ["S"], ["R", 100000]]
-        ev = ev2
+            ev += [["W", c], ["F"], ["R", 100000], ["S"], ["R", 100000]]
     return ev
 
 
